@@ -4,7 +4,7 @@ For each circuit the real state_space_model() is executed symbolically (matrix a
 contract) and its transfer function C (jw I - A)^-1 B + D is compared, for a symbolic w, with the phasor response of the
 same circuit to each source alone computed by the real ComplexSolution (C02).  Labelled bounded."""
 import numpy as np
-from pyvc.spec import contract, eq, implies, iff, raised, ge
+from pyvc.spec import contract, eq, implies, iff, raised, ge, balanced
 from CircuitCalculator.Circuit import components as ccp
 from CircuitCalculator.Circuit.circuit import Circuit, transform_circuit
 from CircuitCalculator.Circuit.state_space_model import state_space_model
@@ -155,9 +155,9 @@ def nodal_model(circuit):
     return nodal_state_space_model(transform_circuit(circuit, w=0), c_values=C_values, l_values=L_values), C_values, L_values
 
 
-def dynamics_case(name, build, sources, node_checks):
+def dynamics_case(name, build, sources, node_checks, elements=()):
     """node_checks: {node: [(element id, +1 if node is the element's first terminal else -1), ...]} for KCL."""
-    @contract('CircuitCalculator.Network.NodalAnalysis.state_space_model.nodal_state_space_model', props=['C10', 'C11', 'C12'], name='dynamics_' + name,
+    @contract('CircuitCalculator.Network.NodalAnalysis.state_space_model.nodal_state_space_model', props=['C10', 'C11', 'C12', 'C05'], name='dynamics_' + name,
               bounded='circuit ' + name + ' (contracts/statespace.py), all element values, states and inputs symbolic')
     class _c:
         def inputs(g):
@@ -196,6 +196,8 @@ def dynamics_case(name, build, sources, node_checks):
                 for e, sign in items:
                     total = total + sign * current(e)
                 res['KCL at ' + node + ' for every state and input'] = eq(total, 0)
+            if elements:
+                res['instantaneous powers of all elements sum to zero for every state and input'] = balanced([voltage(e_) * current(e_) for e_ in elements])
             # passivity: S = W A + A^T W negative semidefinite (2 x 2: diagonal <= 0 and det >= 0; 1 x 1: entry <= 0)
             W = list(C_values.values()) + list(L_values.values())
             n = len(W)
@@ -208,11 +210,11 @@ def dynamics_case(name, build, sources, node_checks):
     return _c
 
 
-dynamics_case('RC', RC, ['Vs'], {'b': [('R1', -1), ('C1', 1)]})
+dynamics_case('RC', RC, ['Vs'], {'b': [('R1', -1), ('C1', 1)]}, ['Vs', 'R1', 'C1'])
 dynamics_case('RLC_series', RLC, ['Vs'], {'b': [('R1', -1), ('L1', 1)], 'c': [('L1', -1), ('C1', 1)]})
-dynamics_case('two_sources_interleaved_names', TwoSources, ['E1', 'J1'], {'b': [('R1', -1), ('H1', 1)], 'c': [('H1', -1), ('C1', 1), ('R2', 1), ('J1', -1)]})
+dynamics_case('two_sources_interleaved_names', TwoSources, ['E1', 'J1'], {'b': [('R1', -1), ('H1', 1)], 'c': [('H1', -1), ('C1', 1), ('R2', 1), ('J1', -1)]}, ['E1', 'R1', 'H1', 'C1', 'R2', 'J1'])
 dynamics_case('two_inductors_listed_backwards', TwoInductors, ['Vs'], {'b': [('Lb', -1), ('R1', 1), ('La', 1)], 'c': [('La', -1), ('R2', 1)]})
-dynamics_case('two_capacitors_listed_backwards', TwoCapacitors, ['Vs'], {'b': [('R1', -1), ('C2', 1), ('R2', 1)], 'c': [('R2', -1), ('C1', 1)]})
+dynamics_case('two_capacitors_listed_backwards', TwoCapacitors, ['Vs'], {'b': [('R1', -1), ('C2', 1), ('R2', 1)], 'c': [('R2', -1), ('C1', 1)]}, ['Vs', 'R1', 'C2', 'R2', 'C1'])
 
 
 # ---- TransientSolution: the simulator is a parameter; a stub records what it is given and returns arbitrary states (C12, C05, C19)
@@ -298,3 +300,36 @@ class transient_unknown_ids:
         return {'unknown node id raises': iff(pot, not node), 'unknown element id raises (voltage)': iff(vol, not elem),
                 'unknown element id raises (current)': iff(cur, not elem), 'unknown element id raises (power)': iff(pw, not elem),
                 'missing input waveform raises': missing_input}
+
+
+# ---- passivity with LOSSY sources that carry a phase (C11): internal resistance / conductance are positive real whatever the phase
+
+
+class LossySourcesRC:
+    n_states = 1
+
+    def values(g):
+        return dict(R=g.pos('R'), C=g.pos('C'), Rs=g.pos('Rs'), Gs=g.pos('Gs'), phiv=g.real('phiv'), phii=g.real('phii'))
+
+    def circuit(v):
+        return Circuit([ccp.ac_voltage_source('Vs', ('a', '0'), V=1, w=0, phi=v['phiv'], R=v['Rs']), ccp.resistor('R1', ('a', 'b'), v['R']),
+                        ccp.capacitor('C1', ('b', '0'), v['C']), ccp.ac_current_source('Is', ('0', 'b'), I=1, w=0, phi=v['phii'], G=v['Gs']),
+                        ccp.ground(nodes=('0',))])
+
+
+@contract('CircuitCalculator.Network.NodalAnalysis.state_space_model.nodal_state_space_model', props=['C11', 'C10'], name='dynamics_lossy_sources_with_phase',
+          bounded='RC circuit fed by a lossy voltage source and a lossy current source with arbitrary phases; all values symbolic')
+class dynamics_lossy_sources:
+    def inputs(g):
+        return dict(vals=LossySourcesRC.values(g))
+
+    def call(f, vals):
+        ssm, C_values, L_values = nodal_model(LossySourcesRC.circuit(vals))
+        return ssm
+
+    def ensures(result, vals):
+        A = result.A[0, 0]
+        R, C, Rs, Gs = vals['R'], vals['C'], vals['Rs'], vals['Gs']
+        return {'one state': result.A.shape == (1, 1),
+                'A = -(Gs + 1/(R + Rs))/C: real and negative for every source phase': eq(A * C * (R + Rs), -(Gs * (R + Rs) + 1)),
+                'stored energy cannot grow: 2*C*A <= 0': ge(0, 2 * C * A)}
